@@ -293,9 +293,12 @@ Definition dom_set_attribute_node (w : world) (k : N) (s : store) (e : id) (a : 
        | None =>
          match get s (snd a) with
          | Some ait =>
-           let '(s1, old) := remove_attribute s e (ilocal ait) in
-           (append_attribute s1 e (snd a),
-            Ok (match old with Some o => RNode (k, o) | None => RNone end))
+           (* typed in Rust: the receiver is an element, the argument an attribute *)
+           if kind_eqb (ikind ait) KAt && has_kind s KEl e then
+             let '(s1, old) := remove_attribute s e (ilocal ait) in
+             (append_attribute s1 e (snd a),
+              Ok (match old with Some o => RNode (k, o) | None => RNone end))
+           else (s, NotApplicable)
          | None => (s, NotApplicable)
          end
        end.
